@@ -19,14 +19,17 @@ pub struct Loc {
     pub fields: Vec<Vec<u8>>,
     /// put an empty-valued field (`X-Served-By:`) right before the last Location field
     pub empty_field_before_last: bool,
+    /// the server sends a stray `100 Continue` (nobody asked for it) ahead of the redirect response; the
+    /// caller receives it through try_response and asks again for the final response
+    pub stray_100_first: bool,
 }
 
 impl Loc {
     pub fn one(s: &str) -> Loc {
-        Loc { fields: vec![s.as_bytes().to_vec()], empty_field_before_last: false }
+        Loc { fields: vec![s.as_bytes().to_vec()], empty_field_before_last: false, stray_100_first: false }
     }
     pub fn many(fields: Vec<Vec<u8>>) -> Loc {
-        Loc { fields, empty_field_before_last: false }
+        Loc { fields, empty_field_before_last: false, stray_100_first: false }
     }
     pub fn last_str(&self) -> Option<&str> {
         self.fields.last().and_then(|b| std::str::from_utf8(b).ok())
@@ -174,6 +177,14 @@ fn follow_impl(f: &Flow<(), Prepare>, body: &[u8], status: u16, loc: &Loc, same_
                 AnyFlow::SendBody(f).proceed()?.ok_or("cannot leave SendBody")?
             }
             AnyFlow::RecvResponse(mut f) => {
+                if loc.stray_100_first {
+                    // either handed out (and not ready) or skipped - then the real response is asked for
+                    let stray = b"HTTP/1.1 100 Continue\r\n\r\n";
+                    match f.try_response(stray) {
+                        Ok((n, _)) if n == stray.len() && !f.can_proceed() => {}
+                        o => return Err(format!("stray 100 not consumed as an interim response: {:?}", o.map(|x| (x.0, x.1.is_some())))),
+                    }
+                }
                 let (n, r) = f.try_response(&resp).map_err(|e| format!("try_response: {:?}", e))?;
                 if r.is_none() || n != resp.len() {
                     return Err("redirect response not accepted".into());
